@@ -83,6 +83,16 @@ class Check:
         spec['top_defaults'] = []
         spec['sub_defaults'] = []
         spec['backend'] = 'none'
+        if rng.random() < 0.3:
+            # a machine file given to `meson setup`: a top-level project option and/or built-ins get their value from it
+            nat: T.Dict[str, str] = {}
+            if rng.random() < 0.8:
+                nat['yy'] = rng.choice(['from machine file', 'nv', ''])
+            if rng.random() < 0.6:
+                k = rng.choice(['warning_level', 'default_library', 'buildtype'])
+                nat[k] = rng.choice(OR.BUILTIN_CHOICES[k])
+            if nat:
+                spec['native'] = nat
         faulty = rng.random() < 0.5          # fault-free and fault-injecting configurations are kept apart
         n = rng.randint(2, 12 if tier != 'quick' else 8)
         m = OR.Model(spec)
@@ -164,6 +174,9 @@ class Check:
         st: T.Dict[str, T.Any] = {'op': op}
         if op == 'setup':
             st['D'] = self.valid_assign(rng, m, m.files, rng.randint(0, 3))
+            if m.native:
+                # the user names the machine file again, or relies on what a leftover cmd_line.txt recorded
+                st['native'] = first or not m.native_recorded or rng.random() < 0.5
         elif op == 'configure':
             st['D'] = self.valid_assign(rng, m, m.files, rng.randint(1, 3)) or {'warning_level': '2'}
         elif op == 'configure-U':
@@ -243,7 +256,7 @@ class Check:
                 m.own = set()
             return False if fault['kind'] != 'ioerr' else None
         if op == 'setup':
-            return m.setup(st.get('D') or {})
+            return m.setup(st.get('D') or {}, bool(st.get('native')))
         if op == 'configure':
             return m.configure(st.get('D') or {}, st.get('U') or [])
         if op == 'reconfigure':
@@ -267,7 +280,8 @@ class Check:
     def argv_for(self, st: T.Dict[str, T.Any], bd: str, sd: str) -> T.List[str]:
         d = P.d_args(st.get('D') or {}, st.get('long') or [])
         if st['op'] == 'setup':
-            return ['setup', '--backend=none', bd, sd] + d
+            nf = ['--native-file', os.path.join(os.path.dirname(bd), 'native.ini')] if st.get('native') else []
+            return ['setup', '--backend=none'] + nf + [bd, sd] + d
         if st['op'] == 'reconfigure':
             return ['setup', '--reconfigure', bd, sd] + d
         if st['op'] == 'wipe':
@@ -300,6 +314,14 @@ class Check:
         sd = os.path.join(root, 'src')
         bd = os.path.join(root, 'bd')
         P.render(spec, sd)
+        if spec.get('native'):
+            with open(os.path.join(root, 'native.ini'), 'w', encoding='utf-8') as f:
+                po = {k: v for k, v in spec['native'].items() if k not in OR.BUILTIN_CHOICES}
+                bo = {k: v for k, v in spec['native'].items() if k in OR.BUILTIN_CHOICES}
+                if po:
+                    f.write('[project options]\n' + ''.join(f'{k} = {P.lit(v)}\n' for k, v in po.items()))
+                if bo:
+                    f.write('[built-in options]\n' + ''.join(f'{k} = {P.lit(v)}\n' for k, v in bo.items()))
         m = OR.Model(spec)
         faults: T.Dict[str, int] = {}
         probes: T.Dict[str, int] = {}
